@@ -39,6 +39,7 @@ type App struct {
 	rsGen    int
 	podSeq   int
 	Deleted  bool // app object deleted (pods may linger)
+	OwnerKind string // for Kind foo: the (unknown) owner kind of its pods, e.g. Foo, Wordpress, Redis
 }
 
 func (a *App) typePrefix() string {
@@ -50,9 +51,16 @@ func (a *App) typePrefix() string {
 	case "tapp":
 		return "tapp_"
 	case "foo":
-		return "foo_"
+		return strings.ToLower(a.ownerKind()) + "_"
 	}
 	return "NULL_"
+}
+
+func (a *App) ownerKind() string {
+	if a.OwnerKind == "" {
+		return "Foo"
+	}
+	return a.OwnerKind
 }
 
 func (a *App) appNameInKey() string {
@@ -199,6 +207,7 @@ func profileFor(prop string) Profile {
 		p.Ops = [2]int{15, 50}
 		p.Stall = true
 		p.Reload, p.Crash = true, true // histories include restarts and reloads: the tables are rebuilt from the store
+		p.Relist = true                // a dropped watch: the informer re-lists and events arrive late or as tombstones
 	case "C03":
 		p.Relist, p.AdminRelease = true, true
 		p.Ops = [2]int{15, 50}
@@ -299,6 +308,8 @@ type World struct {
 	probeFaultsSaved bool
 	lostReplies      int
 	staleFips        []*FipInfo // entries of earlier listings an administrator may still act on
+	poolBodies       map[string][][]byte // pool name -> bodies of earlier create-or-update requests
+	aheadNum         int                 // of 8: how often kube-scheduler works on a pod galaxy-ipam's informer has not seen yet (per-run swarm parameter)
 	plan             *faultPlan
 	planFired        bool
 	recovering       bool
@@ -323,7 +334,7 @@ func (w *World) fail(oracle, key, format string, a ...interface{}) {
 
 func newWorld(s *core.Sim, prop, tier string) *World {
 	w := &World{S: s, C: s.C, prop: prop, tier: tier, prof: profileFor(prop), pods: map[string]*PodInfo{}, podByUID: map[string]*PodInfo{},
-		gone: map[string]bool{}, busy: map[string]*core.Task{}, schedBusy: map[string]*core.Task{}, cloud: map[string]string{}, memdump: map[string][]memEntry{}, unsched: map[string]bool{}, M: newModel(), schedBefore: map[string][]string{}, schedTouched: map[string]bool{}, stalled: map[*core.Task]int{}}
+		gone: map[string]bool{}, busy: map[string]*core.Task{}, schedBusy: map[string]*core.Task{}, cloud: map[string]string{}, memdump: map[string][]memEntry{}, unsched: map[string]bool{}, M: newModel(), schedBefore: map[string][]string{}, schedTouched: map[string]bool{}, stalled: map[*core.Task]int{}, poolBodies: map[string][][]byte{}}
 	w.K = simkube.New(s)
 	w.K.OnMutate = w.onMutate
 	s.OnPanic = w.onPanic
@@ -351,6 +362,7 @@ func newWorld(s *core.Sim, prop, tier string) *World {
 	w.opsLeft = c.Range(w.prof.Ops[0], w.prof.Ops[1])
 	w.withCloud = c.Choose(4) < w.prof.Cloud
 	w.opGap = []int{0, 6, 20, 50}[c.Choose(4)]
+	w.aheadNum = []int{1, 1, 3}[c.Choose(3)]
 	if w.prof.Faults || w.prof.LostReply || w.prof.CloudErr {
 		w.faultMode = c.Choose(3)
 		switch w.faultMode {
@@ -717,7 +729,15 @@ func (w *World) handleReport(t *core.Task, r *core.Req) core.Resp {
 	case "w.filtered":
 		var fr filterReport
 		_ = json.Unmarshal(r.B, &fr)
-		return core.Resp{Msg: w.onFiltered(&fr)}
+		node := w.onFiltered(&fr)
+		if node != "" && w.prof.Stall && w.faultsOn && w.phase == 1 && t != nil && w.stalled[t] == 0 && w.C.Prob(1, 10) {
+			// kube-scheduler takes its time between the extender's filter answer and its bind call (other plugins,
+			// the binding cycle runs in another goroutine): whole resync passes and informer deliveries fit in between
+			w.stalled[t] = w.S.Steps + 40 + w.C.Choose(400)
+			w.S.Stat("fault.sched.stall")
+			w.S.Sig("F:slow:filter-bind-gap")
+		}
+		return core.Resp{Msg: node}
 	case "w.bound":
 		var br bindReport
 		_ = json.Unmarshal(r.B, &br)
@@ -1093,7 +1113,7 @@ func (w *World) newPodObject(a *App, name string, index int) corev1.Pod {
 	case "tapp":
 		pod.OwnerReferences = []metav1.OwnerReference{{Kind: "TApp", Name: a.Name, APIVersion: "apps.tkestack.io/v1", UID: types.UID("app-" + a.Name)}}
 	case "foo":
-		pod.OwnerReferences = []metav1.OwnerReference{{Kind: "Foo", Name: a.Name, APIVersion: "example.com/v1", UID: types.UID("app-" + a.Name)}}
+		pod.OwnerReferences = []metav1.OwnerReference{{Kind: a.ownerKind(), Name: a.Name, APIVersion: "example.com/v1", UID: types.UID("app-" + a.Name)}}
 	}
 	return pod
 }
